@@ -12,6 +12,11 @@ CHECKS = {
         "text": "Lean theorems over a model of ExitStack.__aexit__/push/callback/enter_context/pop_all/aclose: unwinding equals nested async-with for every stack, behaviour and block outcome (C14_nested, C14_order, C14_callback_cannot_suppress); every registered exit runs at most once over every history, failed enters are never exited, pop_all moves exits (C14_once, C14_only_registered, C14_ran_is_gone, C14_popAll, C14_unwind_again). The model is tied to /repo on every run by executing model, real ExitStack, literally nested async-with and contextlib.AsyncExitStack on the same enumerated/random stacks and histories.",
         "note": "Trusted: Lean kernel; axioms propext/Quot.sound only; the hand-written model is tied to the code by sampled correspondence (exhaustive over the behaviour grid for stacks of <=3 (quick) / <=4 (thorough) entries, random histories). Not modelled: __context__ stitching, exits that register further exits during unwinding.",
     },
+    "C16": {
+        "technique": "Lean 4 proof (simulation between two state machines under a reachable-state invariant, induction over operation sequences) + model/implementation correspondence",
+        "text": "Lean theorem C16_refines: for every item/key sequence and every sequence of {advance groupby, advance group i} operations the model of asyncstdlib's GroupBy/_Grouper produces exactly the outputs of the model of CPython's groupby_next/_grouper_next (keys, handles, items, stops); plus C16_stale, C16_adv_detaches, C16_closed_group_stops. Both models are run against the real asyncstdlib.groupby and the real itertools.groupby on the same enumerated/random cases on every run.",
+        "note": "Trusted: Lean kernel; axioms propext/Quot.sound; correspondence is sampled (exhaustive small scope + random). Keys are modelled with decidable equality (the property's reflexive-equality hypothesis); faults in the key function/source are C06's subject, not modelled here.",
+    },
 }
 
 NOT_YET = "not claimed yet: model/theorems/correspondence for this property are still being built (see DESIGN.md section 6); no check is registered, so nothing is asserted about it"
